@@ -44,6 +44,8 @@ def run(ctx, rep):
     refused_is_inert(ctx.prog, rep)
     tick_delta_width(ctx.prog, rep)
     marker_conditions(ctx.prog, rep)
+    from .common import check_refusal_inventory
+    check_refusal_inventory(ctx.prog, rep, "R5-refusal-inventory", ("libtw2_demo::",))
 
 
 def header_tables(prog, rep):
